@@ -294,9 +294,17 @@ def sharedfail_case(item):
                     anoms.append(dict(key='swallowed-failure:shared-failing-target', what='%s: request for the failing T returned 0' % who))
             if r.rc == 0:
                 anoms.append(dict(key='exit:expected-failure:rc=0:shared-failing-target', what='redo all exits 0'))
+        elif pos_q_b is not None and pos_e_t is not None and pos_q_b > pos_e_t:
+            # the second request begins after T's script has failed and the failure is recorded
+            obs['second_request_begun_after_the_failure'] = 1
+            if runs_t != 1:
+                anoms.append(dict(key='failed-target-executed-again-in-the-same-run:%s' % ('forced-request-after-the-failure' if cmd2 == 'redo' else 'redo-ifchange-after-the-failure'),
+                                  what='T failed in this run; b then asked for it with `%s T` and T was executed again (%d executions in one run)' % (cmd2, runs_t)))
+            if r.rc == 0:
+                anoms.append(dict(key='exit:expected-failure:rc=0:shared-failing-target', what='redo all exits 0'))
     finally:
         pj.close()
-    res_ = dict(verdict='violated' if anoms else 'held', nontrivial=bool(obs['second_request_begun_while_the_script_ran']), shape=common.shash(list(item)),
+    res_ = dict(verdict='violated' if anoms else 'held', nontrivial=bool(obs['second_request_begun_while_the_script_ran'] or obs.get('second_request_begun_after_the_failure')), shape=common.shash(list(item)),
                 sample=dict(kind='shared-failing-target', second=cmd2, j=j, pause=pause, keep=keep), obs=obs, sets=dict(rebuild_reasons=['sharedfail:%s:j%d%s' % (cmd2, j, ':keep' if keep else '')]))
     if anoms:
         res_['violations'] = anoms[:3]
@@ -331,7 +339,7 @@ RULE = ('programs with 1-4 nodes whose failure is switched by a declared flag so
         'top-level redo with/without -k at -j1..3: started scripts vs must/may sets (keep-going is inherited through the run and switched on by a nested -k; '
         'without it nothing is started after the first failure known to the requesting process), exit status, nested exit statuses. '
         'Contention layer: `redo L F` / `redo -jN F L` (with and without -k) while another invocation holds L: L must not be built after F failed, and must be with -k. '
-        'Shared-failing-target layer: two scripts of one run force-build (`redo T`, or `redo T` and `redo-ifchange T`) the same target, the second asking while T runs; T fails: executed once, both requests and the command fail (-j2/-j3, with and without -k). '
+        'Shared-failing-target layer: two scripts of one run force-build (`redo T`, or `redo T` and `redo-ifchange T`) the same target, the second asking while T runs; T fails: executed once, both requests and the command fail (-j2/-j3, with and without -k); and the second request begun after the failure (with -k): redo-ifchange is refused, a forced `redo T` executes T again (keyed known finding). '
         'Non-trivial: a failing command followed later by a successful command that ran scripts. Distinct: (graph shape, op sequence).')
 ASSUME = ['which siblings were already started when a failure becomes known is schedule-dependent: guided by the observation (must <= observed <= may)',
           'a successful tolerant consumer of a failed dependency is dirty and is re-executed on a later request in the same run']
@@ -349,6 +357,9 @@ def main(tier):
             for j in (2, 3):
                 for keep in (False, True):
                     extra.append(('sharedfail', cmd2, j, '0.15' if rep % 2 == 0 else '0.3', keep, rep))
+                    if keep or cmd2 == 'redo-ifchange':
+                        # (after the failure: only reached when the command goes on, i.e. with -k - or b itself tolerant enough to get there)
+                        extra.append(('sharedfail', cmd2, j, '1.1', True, rep))
     import os
     base = int(os.environ.get('VERIF_SEED', '1')) * 100000
     extra += [('nested', base + i) for i in range(40 if tier == 'quick' else 1500)]
